@@ -45,6 +45,8 @@ def _edges(mask, ws):
 def _block(name, es, nheaders, nblank, subpaths, declared_n):
     lines = ["# " + name + "\\n"]
     for j in range(nheaders - 1):
+        if nblank:
+            lines.append("\\n")                       # a blank line between two header lines as well
         lines.append("# extra header " + str(j) + "\\n")
     for sp in subpaths:
         lines.append("#S " + " ".join(sp) + "\\n")
@@ -182,7 +184,10 @@ def _wellformed(m, a, b, nh, nb, s1, s2, bl, dn=0):
         sps = _usable(es, [SUBPATHS[i] for i in (s1, s2) if i >= 0])
         nodes = {{x for (u, v, _w) in es for x in (u, v)}}
         lines = _block("g1", es, nh, nb, sps, max(1, len(nodes) + dn))
-        G = gu.read_graph(lines)
+        try:
+            G = gu.read_graph(lines)
+        except Exception:
+            return False                 # a well-formed block must be read, not rejected
         if not _expect(G, "g1", es, sps):
             return False
         # several blocks through a real file
@@ -199,6 +204,8 @@ def _wellformed(m, a, b, nh, nb, s1, s2, bl, dn=0):
         gu.open = lambda fn, mode="r": io.StringIO(text)
         try:
             Gs = gu.read_graphs("in-memory.graph")
+        except Exception:
+            return False
         finally:
             del gu.open
         if bl == 2 and sps:
